@@ -37,6 +37,10 @@ class TypeNormalizer:
             # Annotated[A, ...] is A in whatever form A is written
             return self(t.__origin__, fn)
 
+        if t is None:
+            # As in Optional[A] / A | None: None stands for its type
+            t = type(None)
+
         if t is type:
             t = type[object]
         elif t is typing.Any:
